@@ -15,7 +15,7 @@ SPEC = {
         "thorough": {"shards": 16, "budget_s": 240},
     },
     "floors": {
-        "quick": {"evaluations": 1_000_000, "lattice_pairs": 3000, "distinct_nontrivial": 3000},
+        "quick": {"long_sums": 100, "long_sums_with_exact_total_beyond_u64": 50, "evaluations": 1_000_000, "lattice_pairs": 3000, "distinct_nontrivial": 3000},
         "thorough": {"evaluations": 100_000_000, "lattice_pairs": 3000, "distinct_nontrivial": 3000},
     },
     "manifest": {
